@@ -63,8 +63,9 @@ def scenario(ctx, rng, j):
     pR, pF = sigmsg.pubkey(R), sigmsg.pubkey(F)
     from ..gen import auth as _auth
     fields = _auth.sigfields(rng, must=(1,))
-    allowed = rng.choice((0, 0, 2, 3, 0xff))
-    f = rng.choice([x for x in (0, 2) if not (x & ~allowed & 0xff)])
+    allowed = rng.choice((0, 0, 2, 3, 0x12, 0x30, 0x82, 0xa5, 0xff))
+    f = rng.choice([x for x in (0, 2, 0x10, 0x20, 0x80, 0x82, 0x12)
+                    if not (x & ~allowed & 0xff)])
     a_hex, f_hex = f'{allowed:02x}', f'{f:02x}'
     pre = rbytes(rng, rng.choice((1, 2, 16, 20, 32, 33, 64)))
     wrong = rbytes(rng, rng.choice((1, len(pre))))
@@ -82,16 +83,33 @@ def scenario(ctx, rng, j):
 
     env.Clock.now = NOW0            # creation time of every lock
     kw = dict(timeout=timeout, sigflags=a_hex)
-    locks = {
-        'htlc_sha256': t_.make_htlc_sha256_lock(pR, pF, preimage=pre, **kw),
-        'htlc_shake256': t_.make_htlc_shake256_lock(pR, pF, preimage=pre,
-                                                    hash_size=hs, **kw),
-        'htlc2_sha256': t_.make_htlc2_sha256_lock(pR, pF, preimage=pre, **kw),
-        'htlc2_shake256': t_.make_htlc2_shake256_lock(pR, pF, preimage=pre,
-                                                      hash_size=hs, **kw),
-        'ptlc': t_.make_ptlc_lock(pR, pF, **kw),
-        'ptlc_tweak': t_.make_ptlc_lock(pR, pF, T, **kw),
+    makers = {
+        'htlc_sha256': lambda: t_.make_htlc_sha256_lock(pR, pF, preimage=pre,
+                                                        **kw),
+        'htlc_shake256': lambda: t_.make_htlc_shake256_lock(
+            pR, pF, preimage=pre, hash_size=hs, **kw),
+        'htlc2_sha256': lambda: t_.make_htlc2_sha256_lock(pR, pF, preimage=pre,
+                                                          **kw),
+        'htlc2_shake256': lambda: t_.make_htlc2_shake256_lock(
+            pR, pF, preimage=pre, hash_size=hs, **kw),
+        'ptlc': lambda: t_.make_ptlc_lock(pR, pF, **kw),
+        'ptlc_tweak': lambda: t_.make_ptlc_lock(pR, pF, T, **kw),
     }
+    locks = {}
+    for nm, mk_ in makers.items():
+        try:
+            locks[nm] = mk_()
+        except Exception as e:
+            # every argument is inside the documented domain (keys, 1..64
+            # byte preimage, hash size, timeout >= 0, two hex digits of flags)
+            ctx.evaluated()
+            ctx.violation(f'tlc-builder-raised:{nm}', f'the {nm} lock builder '
+                          'raises for arguments inside its documented domain',
+                          {'name': 'builder-raised', 'kind': nm, 'pR': pR,
+                           'pF': pF, 'pre': pre, 'hs': hs, 'T': T,
+                           'timeout': timeout, 'sigflags': a_hex},
+                          'a lock', f'{type(e).__name__}: {e}'[:160])
+            return
     # digest-form construction must give the same lock
     if j % 5 == 0:
         d = hashlib.sha256(pre).digest()
@@ -284,6 +302,24 @@ def finalize(agg, tier):
 
 def replay(case, ctx):
     ctx.evaluated()
+    if case.get('name') == 'builder-raised':
+        t_ = env.mods()[2]
+        env.Clock.now = NOW0
+        kw = dict(timeout=case['timeout'], sigflags=case['sigflags'])
+        k, pR, pF = case['kind'], case['pR'], case['pF']
+        try:
+            if k.startswith('ptlc'):
+                t_.make_ptlc_lock(pR, pF, case['T'] if k == 'ptlc_tweak'
+                                  else None, **kw)
+            else:
+                if k.endswith('shake256'):
+                    kw['hash_size'] = case['hs']
+                getattr(t_, f'make_{k}_lock')(pR, pF, preimage=case['pre'],
+                                              **kw)
+        except Exception as e:
+            ctx.violation(f'tlc-builder-raised:{k}', 'replay', case, 'a lock',
+                          f'{type(e).__name__}: {e}'[:160])
+        return
     if 'lock' not in case:
         return
     env.Clock.now = case['now']
